@@ -131,7 +131,7 @@ func init() {
 
 func init() {
 	Properties["C10"] = PropSpec{
-		Rules:       []Rule{MapOrder("(*SpecValidator).Validate"), RuleSeq, ModeUse, WarnNeutral, RunState, ResultAlgebra, PoolCtor, DefaultsFieldwise},
+		Rules:       []Rule{MapOrder("(*SpecValidator).Validate"), RuleSeq, ModeUse, WarnNeutral, RunState, ResultAlgebra, PoolCtor, DefaultsFieldwise, InputRO},
 		Explanation: "MAP-ORDER: in every function reachable from (*SpecValidator).Validate, a range over a map is left before exhaustion only by pure search loops, and a list filled in map order is sorted before it is rendered into a message (taint propagated through appends, callees' return values and ranges over tainted lists); RULE-SEQ: early returns only under !Options.ContinueOnErrors && errs.HasErrors(), the final return after all rules (so the stop-early run executes a prefix of the same rule sequence: its errors are a subset), warnings bookkeeping deferred before the first rule, options copied per validator and the process-wide default never consulted during validation; WARN-NEUTRAL: no error is added under a test of the warnings of a sub-result that can carry warnings (warnings alone never invalidate); MODE-USE: every read of ContinueOnErrors is consumed by a branch condition of Validate and flows nowhere else (not into a rule, not into the options of a dependency such as the reference expander), so the mode decides when the run stops and never what a rule reports; RUN-STATE: per-run fields of a reused validator are re-initialised; RESULT-ALGEBRA: messages form a text-keyed set (order-insensitive accumulation); POOL-CTOR: spec validation always recycles validators, so a constructor that leaves a field of a borrowed object unassigned on some path makes the outcome depend on what the pool handed out (previous validations, map order, GC). DEFAULTS-FIELDWISE: a package-level setter cannot reset the other defaults (the verdict would depend on the history of setter calls). carried-state: inside a range over a map no message depends on a container the same loop fills as it goes (path overlaps did: fixed by visiting paths in sorted order).",
 		NotDecided:  "Determinism of the dependencies (analysis, loader); serialisation variants of one document; which member of a cycle a circular-ancestry message names. Found by probing, not decided: the unresolved reference quoted as 'first found' (dependency walk order); the parsed document rewritten by safeExpandedParamsFor when references do not resolve under continue-on-errors.",
 		Assumptions: []string{trustDeps},
